@@ -45,6 +45,11 @@ func (c *InternalCron) ScheduleEvent(ctx *core.Context, se *ScheduledEvent) erro
 		return err
 	}
 
+	// The job belongs to the location that schedules it, not to
+	// whatever location the scheduling context is used for by the
+	// time the job fires.
+	loc := ctx.Location()
+
 	fn := func(t time.Time) error {
 		// Every firing works on a context of its own.  The scheduling
 		// context is shared by all the jobs scheduled under it (all the
@@ -52,10 +57,10 @@ func (c *InternalCron) ScheduleEvent(ctx *core.Context, se *ScheduledEvent) erro
 		// concurrently, and a Context carries per-request state (the
 		// privilege that lets a state hook skip the state lock).
 		ctx := ctx.SubContext()
-		loc := ctx.Location()
 		if loc == nil {
 			return errors.New("no location in ctx")
 		}
+		ctx.SetLoc(loc)
 		fr, err := loc.ProcessEvent(ctx, event)
 		if err != nil {
 			return err
